@@ -272,7 +272,11 @@ type ExploreOpts struct {
 	// panic are reported by the runner itself unless OnAbnormal is set.
 	Check      func(x *vsched.Exec)
 	OnAbnormal func(x *vsched.Exec) bool // return true if handled
-	Prop       string                   // property id used in automatically generated keys
+	Prop       string                    // property id used in automatically generated keys
+	// DivergenceIsCap: when a replayed prefix diverges, ask the harness whether a resource limit of the
+	// worker process (not the code under test) explains it; if so the scenario is capped instead of
+	// ending in a machinery error
+	DivergenceIsCap func() bool
 }
 
 // Want reports whether the sub-scenario is selected (VF_ONLY filter).
@@ -389,6 +393,11 @@ func (c *Ctx) Explore(o ExploreOpts) {
 	if ex.Capped != "" {
 		c.Cap(ex.Capped + ":" + o.Name)
 	}
+	if err != nil && o.DivergenceIsCap != nil && strings.Contains(err.Error(), "nondeterminism") && o.DivergenceIsCap() {
+		c.Cap("stopped at a worker resource limit (" + firstN(err.Error(), 80) + "):" + o.Name)
+		c.Stop = true
+		err = nil
+	}
 	if err != nil {
 		c.Res.Error = err.Error()
 		c.Stop = true
@@ -434,4 +443,11 @@ func trimStack(s string) string {
 		}
 	}
 	return strings.Join(keep, "\n")
+}
+
+func firstN(s string, n int) string {
+	if len(s) > n {
+		return s[:n]
+	}
+	return s
 }
